@@ -655,10 +655,10 @@ Record move_plan_ok (r : xrepo) (l : list (N * frec * path)) : Prop := {
   mp_in : forall e x d, In (e, x, d) l -> In (e, x) (recs (base r));
   mp_new : forall e x d, In (e, x, d) l -> stored r d = false;
   mp_inj : forall e1 x1 d1 e2 x2 d2, In (e1, x1, d1) l -> In (e2, x2, d2) l -> d1 = d2 -> e1 = e2;
-  mp_nodup : NoDup (ents l);
-  mp_unchanged : forall e x d, In (e, x, d) l -> changed r x = false;
-  mp_free : forall e x d, In (e, x, d) l -> ws_lexists (xfs r) d = false
+  mp_nodup : NoDup (ents l)
 }.
+(* (only the records and the directory records are looked at: the plan stays accurate when objects are added to the
+   cache; that the sources are unmodified and the destinations free in the workspace is in move_plan_sources) *)
 
 Lemma stored_false_no_record r d : stored r d = false -> forall e y, In (e, y) (recs (base r)) -> r_path y <> d.
 Proof.
@@ -707,9 +707,6 @@ Proof.
     + intros e1 x1 d1 e2 x2 d2 I1 I2 ED. apply INV in I1. apply INV in I2. destruct I1 as (I1 & ->), I2 as (I2 & ->).
       apply join_inj in ED. apply sources_in in I1. apply sources_in in I2. eapply P; [apply I1|apply I2|auto].
     + unfold ents. rewrite map_map. cbn [fst]. apply sources_nodup; auto.
-    + intros e x d I. apply INV in I. destruct I as (I & _). destruct (changed r x) eqn:C; auto.
-      assert (existsb (fun ex => changed r (snd ex)) (sources r src) = true) by (apply existsb_exists; exists (e, x); auto). congruence.
-    + exact FREE.
   - destruct (existsb (fun ex => changed r (snd ex)) (sources r src)) eqn:CH; [discriminate|].
     destruct (sources r src) as [|[e x] t] eqn:SR; [discriminate|].
     destruct (stored r dst) eqn:ST; [discriminate|]. intros E. apply CHK in E. destruct E as (<- & FREE).
@@ -719,8 +716,32 @@ Proof.
     + intros e' x' d' [I|[]]. injection I as <- <- <-. auto.
     + intros e1 x1 d1 e2 x2 d2 [I1|[]] [I2|[]] _. congruence.
     + cbn. constructor; [tauto|constructor].
-    + intros e' x' d' [I|[]]. injection I as <- <- <-. cbn [existsb snd] in CH. now destruct (changed r x).
-    + exact FREE.
+Qed.
+
+Lemma move_plan_sources src dst r l :
+  move_plan src dst r = MPlanned l ->
+  forall e x d, In (e, x, d) l -> In (e, x) (sources r src) /\ changed r x = false /\ ws_lexists (xfs r) d = false.
+Proof.
+  unfold move_plan.
+  assert (CHK : forall l0, move_checked r l0 = MPlanned l -> l0 = l /\ forall e x d, In (e, x, d) l -> ws_lexists (xfs r) d = false).
+  { intros l0. unfold move_checked. destruct (existsb (fun ed : N * frec * path => ws_lexists (xfs r) (snd ed)) l0) eqn:U; [discriminate|].
+    intros E; injection E as <-. split; auto. intros e x d I. destruct (ws_lexists (xfs r) d) eqn:L; auto.
+    assert (existsb (fun ed : N * frec * path => ws_lexists (xfs r) (snd ed)) l0 = true) by (apply existsb_exists; exists (e, x, d); auto). congruence. }
+  assert (UNCH : existsb (fun ex => changed r (snd ex)) (sources r src) = false -> forall e x, In (e, x) (sources r src) -> changed r x = false).
+  { intros CH e x I. destruct (changed r x) eqn:C; auto.
+    assert (existsb (fun ex => changed r (snd ex)) (sources r src) = true) by (apply existsb_exists; exists (e, x); auto). congruence. }
+  destruct (Nat.ltb 1 (length (sources r src)) && negb (ends_slash dst)); [discriminate|].
+  destruct (ends_slash dst).
+  - destruct (recorded_as_file r (removelast dst)); [discriminate|].
+    destruct (existsb (fun ex => changed r (snd ex)) (sources r src)) eqn:CH; [discriminate|].
+    match goal with |- (if existsb ?f ?l0 then _ else _) = _ -> _ => destruct (existsb f l0) eqn:ST; [discriminate|] end.
+    intros E. apply CHK in E. destruct E as (<- & FREE). intros e x d I. pose proof (FREE e x d I) as FR.
+    apply in_map_iff in I. destruct I as ([e' x'] & E & I). cbn in E. injection E as <- <- <-. eauto.
+  - destruct (existsb (fun ex => changed r (snd ex)) (sources r src)) eqn:CH; [discriminate|].
+    destruct (sources r src) as [|[e x] t] eqn:SR; [discriminate|].
+    destruct (stored r dst) eqn:ST; [discriminate|]. intros E. apply CHK in E. destruct E as (<- & FREE).
+    intros e' x' d' I. pose proof (FREE e' x' d' I) as FR. destruct I as [I|[]]. injection I as <- <- <-.
+    split; [now left|]. split; auto. apply (UNCH eq_refl e x). now left.
 Qed.
 
 (* ---- move: the loop over the sources (workspace only) ---------------------------------------------------------------- *)
@@ -890,7 +911,7 @@ Theorem move_apply_spec fl o r l r' oc :
   (forall e x d, In (e, x, d) l -> move_result r r' e x d) /\
   (oc = Ok -> forall e x d, In (e, x, d) l -> ws_exists (xfs r') (r_path x) = false).
 Proof.
-  intros Wf [K P F] [MI MN MJ MD MU MF]. unfold move_apply.
+  intros Wf [K P F] [MI MN MJ MD]. unfold move_apply.
   destruct (move_paths_spec l r K MD) as (K1 & F1 & N1 & C1 & L1).
   set (r1 := fold_left move_path_one l r) in *.
   assert (LEN1 : length (recs (base r1)) = length (recs (base r))) by (apply L1; intros e x d I; exists x; eauto).
@@ -1495,7 +1516,7 @@ Proof.
   destruct (move_apply_spec fl o r _ r' oc Wf Wr OKP E) as (_ & _ & _ & RES & _).
   destruct (RES e x dst (or_introl eq_refl)) as (NOS & _).
   (* the run of move_apply on the single pair *)
-  unfold move_apply in E. destruct Wr as [K P F]. destruct OKP as [MI MN MJ MD MU MF].
+  unfold move_apply in E. destruct Wr as [K P F]. destruct OKP as [MI MN MJ MD].
   destruct (move_paths_spec [(e, x, dst)] r K MD) as (K1 & F1 & N1 & C1 & L1).
   set (r1 := fold_left move_path_one [(e, x, dst)] r) in *.
   assert (ABe1 : ws_exists (xfs r1) (r_path x) = false) by (rewrite F1; exact ABe).
